@@ -102,6 +102,7 @@ func Parallelize(ctx context.Context, jobs []func(context.Context) error, option
 				job := job
 				wg.Add(1)
 				go func() {
+					verifDispatch()
 					if err := job(ctx); err != nil {
 						addError(err)
 						if cancel != nil {
